@@ -410,15 +410,21 @@ def trigger(prog, rep):
             if isinstance(c_, ast.Call) and norm(c_.func) == "os.path.join" and len(c_.args) == 2 and norm(deep(c_.args[0], pw)).startswith("get_data_dir("):
                 fn_def = deep(c_.args[1], pw, stop=("testing",))
     det = [x for x in prog.all_calls(cm) if norm(x.func) == "detect_db_files"]
-    if fn_def is None or len(det) != 1 or len(det[0].args) < 3:
+    det_args = None
+    if len(det) == 1:
+        # arguments by parameter, positional or keyword
+        dps = prog.func("detect_db_files").params
+        det_args = {p_: a_ for p_, a_ in zip(dps, det[0].args)}
+        det_args.update({k_.arg: k_.value for k_ in det[0].keywords if k_.arg})
+    if fn_def is None or det_args is None or not {"datastore_name", "version"} <= set(det_args):
         rep.undecided("TRIGGER", cm.short, "legacy file name", "cannot find PeeweeStorage's filename expression / the detect_db_files call", cm.loc())
         return
     okn = True
     detail = []
     for testing in (True, False):
         legacy = fold(fn_def, {"testing": testing}, prog, pw)
-        name = fold(det[0].args[1], {"datastore.testing": testing}, prog, cm)
-        ver = fold(det[0].args[2], {}, prog, cm)
+        name = fold(det_args["datastore_name"], {"datastore.testing": testing}, prog, cm)
+        ver = fold(det_args["version"], {}, prog, cm)
         detail.append((testing, legacy, name, ver))
         if legacy is None or name is None or ver is None or legacy.split(".")[0] != name or legacy.split(".")[1] != f"v{ver}":
             okn = False
@@ -435,7 +441,23 @@ def trigger(prog, rep):
         gg = cfg_of(cm)
         nn = gg.node_of(mcalls[0])
         dv = norm(parent(det[0]).targets[0]) if isinstance(parent(det[0]), ast.Assign) else "?"
-        r = gg.reach_filtered(gg.entry, lambda u, v, lab: not (bool(lab) and lab[0] == "cond" and norm(lab[1]) in (f"len({dv}) > 0", dv, f"len({dv}) >= 1", f"len({dv}) != 0") and lab[2] is True))
+        found_texts = set()
+        for x in (dv, norm(det[0])):
+            found_texts |= {f"len({x}) > 0", x, f"len({x}) >= 1", f"len({x}) != 0", f"bool({x})", f"0 < len({x})"}
+        # a local bound once to such a test (has_legacy = len(files) > 0)
+        for nm in {y.id for y in ast.walk(cm.node) if isinstance(y, ast.Name)}:
+            d_ = single_def(cm, nm)
+            if d_ is not None and norm(d_) in found_texts:
+                found_texts.add(nm)
+
+        def says_found(lab):
+            if not (bool(lab) and lab[0] == "cond" and lab[2] is True):
+                return False
+            t_ = lab[1]
+            conj = t_.values if isinstance(t_, ast.BoolOp) and isinstance(t_.op, ast.And) else [t_]
+            return any(norm(c_) in found_texts for c_ in conj)
+
+        r = gg.reach_filtered(gg.entry, lambda u, v, lab: not says_found(lab))
         okc = nn not in r
     rep.check(bool(okc), "TRIGGER", cm.short, "migrates when a legacy file exists", "peewee_v2_to_sqlite_v1(datastore) under len(files) > 0", "the migration is not started exactly when a matching legacy file was found", cm.loc())
     sid = prog.cls("SqliteStorage").attrs.get("sid")
